@@ -210,6 +210,11 @@ class ImplRunner:
                 m = env.get_action_mask()
                 return [4, [int(x) for x in m]]
             if tag == 5:
+                if len(op) > 1 and op[1]:
+                    try:
+                        env.generate_random_initial_state()    # another documented read-only constructor of states
+                    except Exception:   # noqa: BLE001 -- its own result is nobody's property here
+                        pass
                 st = env.generate_initial_state()      # documented: does not touch the environment
                 self.pool.append(st)
                 return [5, state_wire(st.tensor, self.lay)]
